@@ -208,6 +208,8 @@ def show(e):
         return "%s[%s]" % (show(e["base"]), show(e["i"]))
     if k == "sizeof":
         return "sizeof (%s)" % e.get("ofs", e.get("of", "?"))
+    if k == "offsetof":
+        return "offsetof (...) = %s" % e.get("cv")
     if k == "str":
         return '"%s"' % (e.get("v", "") or "").replace("\n", "\\n")
     return "<%s>" % k
@@ -421,6 +423,7 @@ class Function:
                 break
         if counter[0]:
             _prune_constant_branches(d)
+        _scalarise_local_records(d, base.unit)
         f = Function(d, base.unit)
         f.inlined_from = base
         cache[key] = f
@@ -747,6 +750,69 @@ def _prune_constant_branches(d):
             for s_ in b["succs"]:
                 if s_.get("on", "") in ("true", "false") and s_["on"] != keep:
                     s_["unreachable"] = True
+
+
+def _scalarise_local_records(d, unit):
+    """Normal form: a local struct that is only ever used member by member (`w.node`, `w.count` - its address is never taken, it
+    is never copied, passed or returned as a whole) is replaced by one local per member, named `w.node`.  Keeping traversal state
+    or a pair of temporaries in a local struct then reads the same as keeping them in plain locals."""
+    recs = {}
+    for b in d["blocks"]:
+        for s_ in b["stmts"]:
+            for n in _walk_all(s_):
+                if n["k"] == "decl" and n.get("name"):
+                    t = unit.types[n["t"]] if n.get("t") is not None and n["t"] < len(unit.types) else None
+                    if t and t.get("k") == "rec" and n.get("init") is None:
+                        recs[n["name"]] = t.get("rec")
+    if not recs:
+        return
+    whole = set()
+
+    def scan(e, parent_member=False):
+        if isinstance(e, dict):
+            if e.get("k") == "member" and not e.get("arrow") and isinstance(e.get("base"), dict) and e["base"].get("k") == "ref" and e["base"].get("name") in recs:
+                return                      # w.f: fine (do not descend into the base)
+            if e.get("k") == "ref" and e.get("name") in recs and e.get("decl") == "local":
+                whole.add(e["name"])        # used as a whole (address taken, copied, passed, nested member chain)
+            for v in e.values():
+                if isinstance(v, (dict, list)):
+                    scan(v)
+        elif isinstance(e, list):
+            for it in e:
+                scan(it)
+    for b in d["blocks"]:
+        scan(b["stmts"])
+        scan(b.get("term"))
+    cand = dict((v, r) for v, r in recs.items() if v not in whole and unit.records.get(r) is not None)
+    if not cand:
+        return
+
+    def rewrite(e):
+        if isinstance(e, dict):
+            if e.get("k") == "member" and not e.get("arrow") and isinstance(e.get("base"), dict) and e["base"].get("k") == "ref" and e["base"].get("name") in cand:
+                nm = "%s.%s" % (e["base"]["name"], e["field"])
+                keep = dict((k_, e[k_]) for k_ in ("loc", "t", "x", "m", "_caller") if k_ in e)
+                e.clear()
+                e.update(keep)
+                e.update({"k": "ref", "decl": "local", "name": nm})
+                return
+            for v in e.values():
+                if isinstance(v, (dict, list)):
+                    rewrite(v)
+        elif isinstance(e, list):
+            for it in e:
+                rewrite(it)
+    for b in d["blocks"]:
+        rewrite(b["stmts"])
+        rewrite(b.get("term"))
+        new = []
+        for s_ in b["stmts"]:
+            if s_.get("k") == "decl" and s_.get("name") in cand:
+                for f_ in unit.records[cand[s_["name"]]].fields:
+                    new.append({"k": "decl", "name": "%s.%s" % (s_["name"], f_["name"]), "t": f_.get("t", 0), "ts": f_.get("ts"), "loc": s_.get("loc")})
+            else:
+                new.append(s_)
+        b["stmts"] = new
 
 
 def _walk_all(e):
